@@ -25,7 +25,9 @@ fn build_fns(w: u16) -> Vec<FnDef> {
     });
     let res = Ty::either(u32t.clone(), u32t.clone());
     // fn body(acc: u32, ctx: Ctx, i: uW) -> Either<u32, u32>
-    let go_on = || Expr::Right(Box::new(fcall("inc32", vec![var("acc")])));
+    // the body re-binds its accumulator parameter in its top-level block (`let prev = acc; let acc = inc32(prev);`) and
+    // reads both names two scope levels further down, in the arms of nested matches
+    let go_on = || Expr::Right(Box::new(var("acc")));
     h.add_fn(FnDef {
         name: "body".into(),
         params: vec![("acc".into(), u32t.clone()), ("ctx".into(), ctx_ty(w)), ("i".into(), Ty::U(w))],
@@ -44,7 +46,10 @@ fn build_fns(w: u16) -> Vec<FnDef> {
                     (MPat::False, Expr::Tuple(vec![])),
                 )),
             ],
-            Some(Box::new(match_(var("en"), (MPat::True, match_(fcall(&eqw, vec![var("i"), var("x")]), (MPat::True, Expr::Left(Box::new(var("acc")))), (MPat::False, go_on()))), (MPat::False, go_on())))),
+            Some(Box::new(block(
+                vec![let_(Pat::id("prev"), u32t.clone(), var("acc")), let_(Pat::id("acc"), u32t.clone(), fcall("inc32", vec![var("prev")]))],
+                Some(match_(var("en"), (MPat::True, match_(fcall(&eqw, vec![var("i"), var("x")]), (MPat::True, Expr::Left(Box::new(var("prev")))), (MPat::False, go_on()))), (MPat::False, go_on()))),
+            ))),
         ),
     });
     // a body that never looks at its counter: exactly 2^W iterations, never exits
